@@ -56,6 +56,17 @@ TraceShowBias ==
         /\ rep("C18.entry_is_metric_of_that_groups_rows", ~labelsOK \/ ~shapeOK \/
                \A r \in 1..nrow : \A i \in 1..nt :
                   (e.normalize = "none" \/ defined(i)) => SameQ2(o.values[r][i], want(r, i)), du)
+        (* a scripted, non-identity sampler (five stored samples handed out in turn): the bounds are the   *)
+        (* interval formula (C13) on the replicates of the SAME normalised quantity, with the reported     *)
+        (* value as point estimate; the whole-dataset divisor may be the source's (A) or each sample's (B) *)
+        /\ rep("C18.interval_is_for_the_reported_quantity", ~bshape \/ ~labelsOK \/ e.boot # "scripted" \/
+               ~("expected" \in DOMAIN o) \/
+               \E tag \in {"A", "B"} :
+                  LET x == o.expected[tag] IN
+                  /\ Len(x.lower) = nrow /\ Len(x.upper) = nrow
+                  /\ \A r \in 1..nrow : \A i \in 1..nt :
+                       /\ Close(o.lower[r][i], x.lower[r][i], 2) /\ Close(o.upper[r][i], x.upper[r][i], 2),
+               IF dm # "" THEN dm ELSE du)
         (* beyond the listed property: to_markdown() shows one row per group and, first in every   *)
         (* cell, the reported value rounded to three decimals                                      *)
         /\ rep("EXT.markdown_shows_the_values", ~shapeOK \/ ~("md" \in DOMAIN o) \/
